@@ -306,6 +306,23 @@ def run(E: Engine, rep: Report, tier: str) -> dict:
             for t in _symT.subterms(v_) if v_ is not None else ():
                 if t[0] == "cmp" and t[1] == "Eq" and any(u[0] == "call" and (u[1][1] if u[1][0] == "name" else u[1][2] if u[1][0] == "attr" else "") in ("round", "around", "round_") and (dict(u[3]).get("decimals") == ("name", "COORD_PRECISION") or (len(u[2]) > 1 and u[2][1] == ("name", "COORD_PRECISION"))) for u in _symT.subterms(t)):
                     rounded_eq = True
+    # ... rounded as a float64 value, like the trap coordinates: np.round keeps a float32 input float32, and
+    #     float32(2.3) rounded is not equal to the float64 2.3 of the trap
+    def _is_round(u):
+        return u[0] == "call" and (u[1][1] if u[1][0] == "name" else u[1][2] if u[1][0] == "attr" else "") in ("round", "around", "round_")
+
+    def _float_conv(t_):
+        fl = (("name", "float"), ("attr", ("name", "np"), "float64"), ("const", "float64"), ("const", "float"))
+        return any(x[0] == "call" and (dict(x[3]).get("dtype") in fl or (x[1][0] == "attr" and x[1][2] == "astype" and x[2] and x[2][0] in fl) or x[1] == ("name", "float")) for x in _symT.subterms(t_))
+
+    _seen_u: set = set()
+    for l in Sgq.log:
+        for v_ in (l.value, l.cond):
+            for t in _symT.subterms(v_) if v_ is not None else ():
+                if t[0] == "cmp" and t[1] == "Eq":
+                    for u in [u for u in _symT.subterms(t) if _is_round(u) and u[2] and u not in _seen_u]:
+                        _seen_u.add(u)
+                        rep.check(_float_conv(u[2][0]), "TABLE", "WeightMap.get_qubit_weight_map|position-rounded-as-float64", "the position is converted with dtype=float before rounding", f"the qubit position is rounded as `{_symT.show(u)[:100]}` in the dtype it was given in: np.round keeps float32, and a float32 coordinate (2.3 -> 2.29999995...) rounded in float32 is not equal to the trap's float64 coordinate, so a qubit placed on a trap gets weight 0", E.where(gq, l.node))
     rep.check(rounded_eq and not close_calls, "TABLE", "WeightMap.get_qubit_weight_map|qubit-matched-by-rounded-equality", "sorted_coords == round(position, COORD_PRECISION), no isclose", "get_qubit_weight_map matches a qubit to every trap within a tolerance (np.isclose) and adds their weights: with numpy's default rtol the radius grows with the coordinate, and even with rtol=0 two traps one grid step (1e-6) apart both match and a qubit next to a trap gets that trap's weight", E.where(gq))
     rep.ok("TABLE", "WeightMap.get_qubit_weight_map|tolerance-uses-COORD_PRECISION", "the rounding uses COORD_PRECISION (see qubit-matched-by-rounded-equality)", E.where(gq))
     # -0.0 == 0.0 but their bytes differ, and __eq__ / the hash are taken over the bytes of the sorted coordinates: the
@@ -322,6 +339,18 @@ def run(E: Engine, rep: Report, tier: str) -> dict:
 
     norm0 = any(isinstance(n_, ast.BinOp) and isinstance(n_.op, ast.Add) and (_is_zero(n_.left) or _is_zero(n_.right)) for n_ in ast.walk(rc_f.node))
     norm0 = norm0 or any(isinstance(n_, ast.Call) and (dotted(n_.func) or "").split(".")[-1] in ("where", "copysign") for n_ in ast.walk(rc_f.node))
+    # ... applied to the ROUNDED values: the rounding is what produces most negative zeros (-3e-9 rounds to -0.0), so
+    #     `round(x + 0.0)` normalises nothing
+    def _has_round(o_):
+        if isinstance(o_, ast.Name):
+            defs_ = [x_ for x_ in ast.walk(rc_f.node) if isinstance(x_, ast.Assign) and len(x_.targets) == 1 and isinstance(x_.targets[0], ast.Name) and x_.targets[0].id == o_.id]
+            return len(defs_) == 1 and _has_round(defs_[0].value)
+        return any(isinstance(c_, ast.Call) and (dotted(c_.func) or "").split(".")[-1] in ("round", "around", "round_") for c_ in ast.walk(o_))
+
+    adds0 = [n_ for n_ in ast.walk(rc_f.node) if isinstance(n_, ast.BinOp) and isinstance(n_.op, ast.Add) and (_is_zero(n_.left) or _is_zero(n_.right))]
+    if adds0:
+        after = any(_has_round(n_.right if _is_zero(n_.left) else n_.left) for n_ in adds0)
+        rep.check(after, "TABLE", "CoordsCollection._rounded_coords|negative-zero-normalised-after-rounding", "round(...) + 0.0: the operand of `+ 0.0` is the rounded array", "the `+ 0.0` that removes negative zeros is applied BEFORE the rounding: rounding a value in (-5e-7, 0) produces -0.0 afterwards, which reaches the sorted coordinates and the hashed bytes -- two layouts with the same rounded coordinate set compare unequal and hash differently", E.where(rc_f, adds0[0]))
     rep.check(norm0, "TABLE", "CoordsCollection._rounded_coords|negative-zero-normalised", "round(...) + 0.0", "the rounded coordinates keep IEEE negative zeros (given directly, or produced by rounding a value in (-5e-7, 0)): -0.0 == 0.0 but the bytes differ, so two layouts / detuning maps with the same trap set compare unequal and hash differently", E.where(rc_f))
     # the traps own their coordinates: Traps.__init__ stores a fresh float array, not the caller's object (read lazily,
     # it would follow later edits of the caller's array and inherit its dtype, e.g. float32 roundings)
